@@ -450,3 +450,46 @@ Theorem C09_stale_retval_refuted :
   show_ret [] chk_specs (Some (le_bytes 8 3)) = [32; 61; 32; 51; 59].
 Proof. exact stale_retval_refuted. Qed.
 Print Assumptions C09_stale_retval_refuted.
+
+(* specs of one function given partly by -T (trigger actions, argument and return value specs mixed) and partly by
+   -A / -R: for every such split the specs of each direction - what lays out the payload - are the same list, in the
+   same order, in the writer (libmcount: -T, -A, -R) and in the readers (info file: argument specs of -T, -A; return
+   value specs of -T, -R).  `separated`: no argument spec and return value spec name the same register / stack slot. *)
+Theorem C09_trigger_split_order : forall x d,
+  separated (pool (writer_opts x)) ->
+  Forall (fun o => Forall (fun s => is_ret s = false) (snd o)) (x_a x) ->
+  Forall (fun o => Forall (fun s => is_ret s = true) (snd o)) (x_r x) ->
+  dir_specs d (reader_opts x) = dir_specs d (writer_opts x).
+Proof. exact trigger_split_order. Qed.
+Print Assumptions C09_trigger_split_order.
+
+(* the order is load-bearing: `-T 'lookup@arg1/i32' -A 'lookup@arg2/s,arg3/i64'` with the options ahead of the trigger
+   specs in the info file cannot frame the payload of lookup(7, "seven", -3) *)
+Theorem C09_reader_options_first_refuted :
+  let w := merge_opts (writer_opts lookup_x) in
+  w = [Sp 1 FSint 4 TIndex 0; Sp 2 FStr 8 TIndex 0; Sp 3 FSint 8 TIndex 0] /\
+  merge_opts (reader_opts lookup_x) = w /\
+  merge_opts (reader_opts_options_first lookup_x) = [Sp 2 FStr 8 TIndex 0; Sp 3 FSint 8 TIndex 0; Sp 1 FSint 4 TIndex 0] /\
+  payload (run 0 lookup_inp false w) = Some lookup_payload /\
+  read_args false w (fit 24 0 lookup_payload ++ next_rec) = Some (lookup_payload, next_rec) /\
+  show_args [] w (Some lookup_payload) = [40; 55; 44; 32; 34; 115; 101; 118; 101; 110; 34; 44; 32; 45; 51; 41] /\
+  read_args false (merge_opts (reader_opts_options_first lookup_x)) (fit 24 0 lookup_payload ++ next_rec) <>
+    Some (lookup_payload, next_rec).
+Proof. exact options_first_reader_refuted. Qed.
+Print Assumptions C09_reader_options_first_refuted.
+
+(* repaired in /repo: extract_trigger_args reduced the return value spec of a trigger action to a plain `retval`;
+   `-T 'name@retval/s'` showed name() = 0x6e657665730005 for "seven", a longer string lost the following record *)
+Theorem C09_trigger_retval_format_legacy_refuted :
+  let w := merge_opts (writer_opts name_x) in
+  w = [Sp 0 FStr 8 TIndex 0] /\ merge_opts (reader_opts name_x) = w /\
+  merge_opts (reader_opts_legacy name_x) = [Sp 0 FAuto 8 TIndex 0] /\
+  payload (run 0 (name_inp [115; 101; 118; 101; 110]) true w) = Some seven_payload /\
+  show_ret [] w (Some seven_payload) = [32; 61; 32; 34; 115; 101; 118; 101; 110; 34; 59] /\
+  show_ret [] (merge_opts (reader_opts_legacy name_x)) (Some seven_payload) =
+    [32; 61; 32; 48; 120; 54; 101; 54; 53; 55; 54; 54; 53; 55; 51; 48; 48; 48; 53; 59] /\
+  payload (run 0 (name_inp (repeat 65 20)) true w) = Some a20_payload /\
+  read_args true w (a20_payload ++ next_rec) = Some (a20_payload, next_rec) /\
+  read_args true (merge_opts (reader_opts_legacy name_x)) (a20_payload ++ next_rec) <> Some (a20_payload, next_rec).
+Proof. exact trigger_retval_format_legacy_refuted. Qed.
+Print Assumptions C09_trigger_retval_format_legacy_refuted.
